@@ -41,13 +41,18 @@ def lcg_word(seed, n, levels, stick):
     return out
 
 
+def _stretch(alpha, lmax, ks):
+    return [{'fam': 'stretch', 'alpha': list(alpha), 'root': list(w), 'lmax': lmax, 'ks': list(ks)} for w in itertools.product(alpha, repeat=2)]
+
+
 def build(tier, seed):
     if tier == 'quick':
-        cases = _roots((0, 1, 2, 3, 4), 7, 'S5')
-        bounds = {'S5 {0..4}': 7}
+        cases = _roots((0, 1, 2, 3, 4), 7, 'S5') + _stretch((0, 1, 2, 3, 4), 5, (3, 9, 41))
+        bounds = {'S5 {0..4}': 7, 'S5 words of length 2..5 with every sample held for k steps, k in': [3, 9, 41]}
     else:
-        cases = _roots((0, 1, 2, 3, 4), 8, 'S5') + _roots((-3, -2, -1, 0, 1, 2, 3), 6, 'S7') + _roots((-1, 0, 1), 11, 'S3')
-        bounds = {'S5 {0..4}': 8, 'S7 {-3..3}': 6, 'S3 {-1,0,1}': 11}
+        cases = (_roots((0, 1, 2, 3, 4), 8, 'S5') + _roots((-3, -2, -1, 0, 1, 2, 3), 6, 'S7') + _roots((-1, 0, 1), 11, 'S3')
+                 + _stretch((0, 1, 2, 3, 4), 6, (3, 9, 41, 700)))
+        bounds = {'S5 {0..4}': 8, 'S7 {-3..3}': 6, 'S3 {-1,0,1}': 11, 'S5 words of length 2..6 with every sample held for k steps, k in': [3, 9, 41, 700]}
         for j in range(64):
             sd = 64 * seed + j
             n = [50, 200, 1000, 5000][j % 4]
@@ -60,13 +65,13 @@ def build(tier, seed):
                 'cycle counter opt {all,switched} x start {origin,peak}; non-trivial = non-constant word' % ROOT,
         'bounds': bounds,
         'required_classes': ['flat-start', 'flat-end', 'interior-plateau-extremum', 'interior-plateau-nonextremum',
-                             'starts-rising', 'starts-falling', 'ptype-max', 'ptype-min', 'ncyc-switched'],
+                             'starts-rising', 'starts-falling', 'ptype-max', 'ptype-min', 'ncyc-switched', 'stretched-long-record'],
         'assumptions': ['index-valued outputs are compared exactly', 'reference: run-compression scanner (mcheck/refs/peaks_ref.py)',
                         'constant series are outside the statement and skipped (counted as disabled)'],
     }
 
 
-def check_word(r, w, fam, containers=('f', 'i', 'l')):
+def check_word(r, w, fam, containers=('f', 'i', 'l'), label=None):
     n = len(w)
     if len(set(w)) == 1:
         r.disabled['constant-word'] += 1
@@ -86,7 +91,7 @@ def check_word(r, w, fam, containers=('f', 'i', 'l')):
     r.cls('starts-rising' if rs[1][1] > rs[0][1] else 'starts-falling')
     sub0 = {'fam': fam, 'w': w if n <= 16 else None}
     if n > 16:
-        sub0['word'] = 'long'
+        sub0['word'] = label or 'long'
     extra = ()
     if n <= 6 and min(w) >= 0 and max(w) <= 4:
         extra = ('u8', 'i16x100')     # unsigned (wrap-around on a falling step) and narrow integers with large steps
@@ -180,6 +185,16 @@ def run_case(case):
     root = tuple(case['root'])
     alpha = case['alpha']
     lmax = case['lmax']
+    if fam == 'stretch':
+        # every word of the sub-tree with each sample held for k steps: long records made of plateaus with few turning points
+        for n in range(max(len(root), 2), lmax + 1):
+            for ext in itertools.product(alpha, repeat=n - len(root)):
+                base_w = list(root + ext)
+                for k in case['ks']:
+                    r.transitions += 1
+                    r.cls('stretched-long-record')
+                    check_word(r, [v for v in base_w for _ in range(k)], 'stretch', containers=('f',), label='%r held x%d' % (base_w, k))
+        return r
     check_word(r, list(root), fam)
     for n in range(len(root) + 1, lmax + 1):
         for ext in itertools.product(alpha, repeat=n - len(root)):
